@@ -94,18 +94,29 @@ fn check_ref(r: Ref<'_>, v: &Value, depth: usize) -> Result<usize, (String, Stri
                     break;
                 }
             }
-            match r.as_pair() {
-                Some((car, cdr)) => {
-                    if car.value() != cell.car() || cdr.value() != cell.cdr() {
-                        return Err(("as_pair".into(), "as_pair exposes different car/cdr".into()));
+            // walk the spine through as_pair (iteratively: elements are visited
+            // once, by the list_iter loop above)
+            let mut rc = r;
+            let mut vc: &Value = v;
+            let mut guard = 0usize;
+            loop {
+                guard += 1;
+                match (rc.as_pair(), vc.as_pair()) {
+                    (Some((rcar, rcdr)), Some((vcar, vcdr))) => {
+                        if rcar.value() != vcar || rcdr.value() != vcdr {
+                            return Err(("as_pair".into(), "as_pair exposes different car/cdr".into()));
+                        }
+                        rc = rcdr;
+                        vc = vcdr;
                     }
-                    // the cdr reference must itself be walkable like the value's cdr
-                    if depth < 40 {
-                        visited += check_ref(cdr, cell.cdr(), depth + 1)?;
-                    }
+                    (None, None) => break,
+                    _ => return Err(("as_pair".into(), "as_pair presence differs along the list".into())),
                 }
-                None => return Err(("as_pair".into(), "as_pair is None on a cons".into())),
+                if guard > 1_000_000 {
+                    break;
+                }
             }
+            let _ = cell;
             if r.vector_iter().is_some() {
                 return Err(("vector_iter-presence".into(), "vector_iter is Some on a cons".into()));
             }
@@ -352,6 +363,18 @@ fn g_repetition() -> BS<(Case, &'static str)> {
         .boxed()
 }
 
+/// Nesting around the recursion limit through generated mixtures of every
+/// nesting construct: the two APIs must draw the line at the same depth.
+fn g_nesting() -> BS<(Case, &'static str)> {
+    (proptest::collection::vec(0u8..9, 100..=170), g_qopt_index(), 0u8..3, any::<bool>())
+        .prop_map(|(kinds, q, source, uniform)| {
+            let kinds = if uniform { vec![kinds[0]; kinds.len()] } else { kinds };
+            let (text, _) = crate::props::c03::nest_text(&crate::props::c03::Nest { kinds, q });
+            (Case { input: text.into_bytes(), q, source }, "nesting")
+        })
+        .boxed()
+}
+
 fn run(ctx: &mut Ctx) {
     let tier = ctx.tier;
     use rayon::prelude::*;
@@ -363,6 +386,7 @@ fn run(ctx: &mut Ctx) {
             let mut c = parent.fork();
             c.run_prop(&format!("inputs/{}", w), tier.pick(5_000, 120_000), g_case(max_len), |(c, l)| check_case(c, l));
             c.run_prop(&format!("repetition/{}", w), tier.pick(30, 600), g_repetition(), |(c, l)| check_case(c, l));
+            c.run_prop(&format!("nesting/{}", w), tier.pick(150, 3_000), g_nesting(), |(c, l)| check_case(c, l));
             c
         })
         .collect();
